@@ -110,6 +110,8 @@ EncLink(lk, et, inner) ==
     [] lk = "sllptype" -> <<0, 8, 0, 1, 0, 6>> \o Pat(8, 5) \o Be16(et) \o inner
     [] lk = "sllhw" -> <<0, 0, 0, 6, 0, 6>> \o Pat(8, 5) \o Be16(et) \o inner
     [] lk = "sllnetlink" -> <<0, 0, 3, 56, 0, 0>> \o Pat(8, 5) \o Be16(et) \o inner
+    [] lk = "slllongaddr" -> <<0, 0, 0, 1, 0, 20>> \o Pat(8, 5) \o Be16(et) \o inner
+    [] lk = "sllmaxaddr" -> <<0, 0, 0, 1, 255, 255>> \o Pat(8, 5) \o Be16(et) \o inner
     [] lk = "sllnonstd" -> <<0, 0, 0, 1, 0, 6>> \o Pat(8, 5) \o <<0, 4>> \o inner
     [] lk = "none" -> inner
 LinkLen(lk) == CASE lk = "eth" -> 14 [] lk = "none" -> 0 [] OTHER -> 16
@@ -168,7 +170,7 @@ ExtSeqs ==
   \cup {<<"v8100", "v88a8", "v9100">>, <<"v8100", "v8100", "v8100", "v8100">>, <<"m0", "msc", "m0">>, <<"msc", "msc", "msc", "msc">>,
         <<"v8100", "msc", "v88a8", "m0">>, <<"msc", "v8100", "mlong">>}
 
-Links == {"eth", "sll", "sllptype", "sllhw", "sllnetlink", "sllnonstd", "none"}
+Links == {"eth", "sll", "sllptype", "sllhw", "sllnetlink", "sllnonstd", "slllongaddr", "sllmaxaddr", "none"}
 
 \* star design: one or two dimensions away from the default
 RecipesQuick ==
